@@ -127,11 +127,12 @@ def aeadSeal (ct tag : Bytes) (mem : Bytes) (dst : Dst) (pt ad : Sl) : Res :=
     .ok (rd mem2 dst.off (dst.len + pt.len + 16)) mem2
 
 /-- `chacha20poly1305.Open(dst, nonce, ciphertext, ad)` for an authentic ciphertext of `ct.len ≥ 16` bytes;
-    `pt` = plaintext (result on separate buffers).  The checks look at `ciphertext[:len-16]` only. -/
+    `pt` = plaintext (result on separate buffers).  Both paths check the appended region against
+    `ciphertext[:len-16]` (inexact overlap) and against the 16 tag bytes (any overlap). -/
 def aeadOpen (pt : Bytes) (mem : Bytes) (dst : Dst) (ct ad : Sl) : Res :=
   let n := ct.len - 16
   let out := sliceForAppend dst n
-  if inexactOverlapO out ⟨ct.off, n⟩ then .panic else
+  if inexactOverlapO out ⟨ct.off, n⟩ || anyOverlapO out ⟨ct.off + n, 16⟩ then .panic else
   if anyOverlapO out ad then .panic else
   let ks := xorBytes pt (rd mem ct.off n)
   match out with
